@@ -90,6 +90,52 @@ def main():
                    "bytes; iteration counts incl. 1 and %d; honest server, 10 single-field tamperings (incl. truncated / empty / extended signature), wrong password; seed %d"
                    % (3 if a.tier == "quick" else 4, 4096 if a.tier == "quick" else 20000, a.seed),
           "failures": fails, "replay": {"script": REPLAY}})
+    n, fails = login_sequences(a.tier, a.seed)
+    emit({"name": "scram-login-sequences", "exhaustive": False, "cases": n, "distinct_nontrivial": n,
+          "bound": "sequences of five logins of one user in one process with changing client passwords (old, new, a typo), same "
+                   "salt and iteration count, each against a server that knows the old or the new password; both mechanisms, "
+                   "usernames with and without escapes; seed %d" % a.seed,
+          "failures": fails, "replay": {"script": REPLAY_SEQ % a.seed}})
+
+
+def login_sequences(tier, seed):
+    """Several logins in one process (reconnects, a corrected or rotated password): every login must prove *its own*
+    password and authenticate only a server that knows *that* password - whatever earlier logins of the same user,
+    with the same salt and iteration count, have left behind."""
+    rnd = random.Random(seed)
+    fails, n = [], 0
+    for mech in ("SCRAM-SHA-256", "SCRAM-SHA-512"):
+        for user in ("user", "a,b", "x=y"):
+            for trial in range(3 if tier == "quick" else 20):
+                salt = bytes(rnd.randrange(256) for _ in range(16))
+                it = rnd.choice([1, 2, 4096])
+                pws = ["old-secret", "new-secret", "old-secret", "typo", "new-secret"]
+                rnd.shuffle(pws)
+                for step, client_pw in enumerate(pws):
+                    for server_pw in ("old-secret", "new-secret"):
+                        n += 1
+                        srv = Server(mech, {user: server_pw}, salt, it)
+                        out = exchange(mech, user, client_pw, srv)
+                        if client_pw == server_pw:
+                            ok = out == "completed" and srv.accepted
+                        else:
+                            ok = out != "completed" and not srv.accepted
+                        if not ok:
+                            fails.append({"mechanism": mech, "user": user, "logins_so_far": pws[:step + 1], "client_password": client_pw,
+                                          "server_knows": server_pw, "outcome": out, "server_accepted": srv.accepted})
+                            if len(fails) >= 10:
+                                return n, fails
+    return n, fails
+
+
+REPLAY_SEQ = '''
+import sys, logging
+logging.disable(logging.CRITICAL)
+sys.path.insert(0, "/verif")
+from bounded import C18
+n, fails = C18.login_sequences("quick", %d)
+VIOLATED = bool(fails); DETAIL = "%%d of %%d logins of a sequence went wrong; first: %%r" %% (len(fails), n, fails[:1])
+'''
 
 
 REPLAY = '''
